@@ -5,6 +5,9 @@
 #define C19_BD(d) (((struct qb*)(d))->data)
 void vp_c19_model_limit(uint8_t ok) { ASSERT(ok, "C19 environment: log capacity exceeded"); ASSUME(ok); }
 uint8_t vp_c19_false(void) { return 0; }
+/* symbolic QByteArray of a FIXED length n (<= 4): the length is a constant for symbolic execution */
+void vp_c19_sym_bytes_n(char *out, uint32_t n) { ASSERT(n <= 4, "symbolic bytes bound"); QAD *d = qb_new(n, n); uint8_t c0 = vp_u8(), c1 = vp_u8(), c2 = vp_u8(), c3 = vp_u8();
+  if (n > 0) C19_BD(d)[0] = c0; if (n > 1) C19_BD(d)[1] = c1; if (n > 2) C19_BD(d)[2] = c2; if (n > 3) C19_BD(d)[3] = c3; C19_BD(d)[n] = 0; C19_QBD(out) = d; }
 
 /* ---- QIODevice (libQt5Core).  One device object (raw storage owned by the harness).
    write(const char*, qint64): appends to a ghost byte log, returns the full length (or -1 when the harness switched the device to
